@@ -39,7 +39,7 @@ Proof.
   - cbn [tsize doc_type] in Hs, Hd. rewrite <- app_assoc.
     destruct (item_paren true i); cbn [paren].
     + cbn [app]. eexists. eexists. split; [apply lex_lparen|]. unfold type_start. cbn. tauto.
-    + apply (IH i ltac:(lia) Hd). reflexivity.
+    + assert (Hi : tsize i <= n) by lia. apply (IH i Hi Hd). reflexivity.
   - eexists. eexists. split; [apply lex_kw_table; exact Hstop|]. unfold type_start. cbn. tauto.
   - rewrite <- !app_assoc. eexists. eexists. split; [apply (lex_kw_table (60%N :: _)); reflexivity|].
     unfold type_start. cbn. tauto.
@@ -50,7 +50,7 @@ Proof.
     destruct (member_paren m); cbn [paren].
     + cbn [app]. eexists. eexists. split; [apply lex_lparen|]. unfold type_start. cbn. tauto.
     + cbn [forallb] in Hdt. apply andb_true_iff in Hdt as [Hdm _].
-      cbn [map list_sum] in Hs. apply (IH m ltac:(lia) Hdm). reflexivity.
+      cbn [map list_sum] in Hs. assert (Hm : tsize m <= n) by lia. apply (IH m Hm Hdm). reflexivity.
 Qed.
 
 Lemma first_token_bare t rest : doc_type t = true -> stop rest = true ->
